@@ -76,8 +76,8 @@ def run(res, seed, tier, nseeds=None, nops=None):
     if not okb:
         res.violation("model-build", "extracted model does not build: " + txt[-1200:])
     thorough = (tier == "thorough")
-    nseeds = nseeds or (6 if thorough else 3)
-    nops = nops or (600 if thorough else 260)
+    nseeds = nseeds or (5 if thorough else 3)
+    nops = nops or (450 if thorough else 260)
     samples = []
     for cfgname, variant in (VARIANTS_THOROUGH if thorough else VARIANTS_QUICK):
         for k in range(nseeds):
